@@ -23,18 +23,18 @@ EmitVals == z = 0 => \A v \in C05Vals : Out(WithSize(v))
 
 \* ---- C03 (i)
 EmitStrings == z = 0 => \A s \in PayloadStrings(L) : Out([c |-> "in_frame", b |-> s])
-Head == IF Quick THEN 12 ELSE 24
+MutHead == IF Quick THEN 12 ELSE 24
 
 \* ---- C03 (ii)
 Small(fr) == \A i \in 1..Len(fr.x) : Layout(fr.t)[i][1] \in {"lpb", "rest"} => Len(fr.x[i]) <= 64
-MutAlphabet == Alphabet \cup CidBytes
+MutAlphabet == IF Quick THEN {0, 21, 64, 128, 192, 255} ELSE Alphabet \cup CidBytes
 \* one representative of each frame kind x flag x width class is enough for the substitutions: the C05 values whose
 \* varint fields all sit at the same boundary, plus the rejected-by-construction values
 Diag(fr) == \A i, j \in 1..Len(fr.x) : (Layout(fr.t)[i][1] = "v" /\ Layout(fr.t)[j][1] = "v") => fr.x[i] = fr.x[j]
 MutFrames(u) == { fr \in FrameVals : Small(fr) /\ (Diag(fr) \/ (~Quick /\ fr.t \in {2, 3, 24, 28})) } \cup RejectedFrameVals
 \* (nested quantifiers instead of one big UNION: TLC would sort ~10^6 sequences to normalise the union; duplicates are
 \*  removed by the collector)
-EmitFrameMut == z = 0 => \A fr \in MutFrames(z) : \A s \in Mutations(EncodeFrame(fr), MutAlphabet, Head) \cup {EncodeFrame(fr)} :
+EmitFrameMut == z = 0 => \A fr \in MutFrames(z) : \A s \in Mutations(EncodeFrame(fr), MutAlphabet, MutHead) \cup {EncodeFrame(fr)} :
                              Out([c |-> "in_frame", b |-> s])
 
 \* datagrams: every header kind with Length and a 20 / 21 byte payload; mutated; and pairs coalesced
@@ -51,13 +51,13 @@ Datagrams(u) ==
 MutDatagrams(u) == { Pkt(h, 20) : h \in { x \in SmallHdrs(u) : Len(x.tok) <= 1 } }
 OutD(s) == Out([c |-> "in_dgram", b |-> s])
 EmitDgram == z = 0 => /\ \A s \in Datagrams(z) \cup StrsUpTo(Alphabet, 2) : OutD(s)
-                      /\ \A d \in MutDatagrams(z) : \A s \in Mutations(d, MutAlphabet, Head + 12) : OutD(s)
+                      /\ \A d \in MutDatagrams(z) : \A s \in Mutations(d, MutAlphabet, MutHead + 12) : OutD(s)
 
 \* transport parameters: the encodings of the C05 sets, mutated
 SmallParams(u) == { p \in ParamVals : /\ \A i \in 1..Len(p.ps) : PType(p.ps[i].id) = "bytes" => Len(p.ps[i].val) <= 64
                                       /\ (Quick => (Len(p.ps) <= 3 /\ p.role # "remembered")) }
 OutP(s) == Out([c |-> "in_params", b |-> s])
 EmitParams == z = 0 => /\ \A s \in StrsUpTo(Alphabet, 3) : OutP(s)
-                       /\ \A p \in SmallParams(z) : \A s \in Mutations(EncodeParams(p.ps), MutAlphabet, Head) \cup {EncodeParams(p.ps)} : OutP(s)
+                       /\ \A p \in SmallParams(z) : \A s \in Mutations(EncodeParams(p.ps), MutAlphabet, MutHead) \cup {EncodeParams(p.ps)} : OutP(s)
 EmitC03 == EmitStrings /\ EmitFrameMut /\ EmitDgram /\ EmitParams
 =============================================================================
